@@ -203,14 +203,25 @@ Section ShiftReentry.
       destruct (make_row F s k v); cbn [nres_R nres_state] in *; apply paid_alive; exact H.
     Qed.
 
-    Lemma native_minmax_shift less it kf s :
-      alive (nres_state (native_minmax F P re self less it kf s)) ->
-      native_minmax F P re' self' less it kf (shift d s) = nres_shift d (native_minmax F P re self less it kf s).
+    (* the private copy of the table (662697a) is one more heap allocation *)
+    Lemma snapshot_shift s t :
+      snapshot F (shift d s) t = option_map (fun p => (shift d (fst p), snd p)) (snapshot F s t).
+    Proof.
+      unfold snapshot. sh_cbn. destruct (titer (veq0 F (st_heap s)) t); [|reflexivity].
+      unfold salloc, halloc, set_table. sh_cbn. destruct (insert_pairs _ _ _); reflexivity.
+    Qed.
+
+    Lemma native_minmax_shift less it kf s0 :
+      alive (nres_state (native_minmax F P re self less it kf s0)) ->
+      native_minmax F P re' self' less it kf (shift d s0) = nres_shift d (native_minmax F P re self less it kf s0).
     Proof.
       unfold native_minmax. sh_cbn. intros Ha.
       destruct it as [|z|r|a]; try reflexivity.
-      destruct (hget (st_heap s) a) as [[t| | | | |]|]; try reflexivity.
-      destruct (titer (veq0 F (st_heap s)) t) as [[|[k0 v0] rest]|]; try reflexivity.
+      destruct (hget (st_heap s0) a) as [[t| | | | |]|]; try reflexivity.
+      rewrite snapshot_shift.
+      destruct (snapshot F s0 t) as [[s entries]|]; cbn [option_map fst snd]; [|reflexivity].
+      sh_cbn.
+      destruct (titer (veq0 F (st_heap s)) entries) as [[|[k0 v0] rest]|]; try reflexivity.
       rewrite spush_shift. destruct (spush s v0) as [s1|] eqn:E1; cbn [option_map]; [|reflexivity].
       rewrite spush_shift. destruct (spush s1 k0) as [s2|] eqn:E2; cbn [option_map]; [|reflexivity].
       assert (Hmm : forall key0 s3,
@@ -218,21 +229,16 @@ Section ShiftReentry.
                    match minmax_go F P re self less kf rest 1 0 key0 s3 with
                    | MMFail r => r
                    | MMOk i s4 =>
-                       match hget (st_heap s4) a with
-                       | Some (OTable t') =>
-                           let k := tnth_key t' i in
-                           match tget (veq0 F (st_heap s4)) t' k with
-                           | None => NStop ACrash s4
-                           | Some r => make_row F s4 k (match r with Some v => v | None => VNil end)
-                           end
-                       | _ => NStop AUB s4
+                       let k := tnth_key entries i in
+                       match tget (veq0 F (st_heap s4)) entries k with
+                       | None => NStop ACrash s4
+                       | Some r => make_row F s4 k (match r with Some v => v | None => VNil end)
                        end
                    end) ->
                  alive (mm_state (minmax_go F P re self less kf rest 1 0 key0 s3))).
       { intros key0 s3 H. destruct (minmax_go F P re self less kf rest 1 0 key0 s3) as [i s4|r]; cbn [mm_state];
           [|exact H].
-        destruct (hget (st_heap s4) a) as [[t'| | | | |]|]; try exact H.
-        cbv zeta in H. destruct (tget _ t' _); [|exact H]. eapply make_row_alive. exact H. }
+        cbv zeta in H. destruct (tget _ entries _); [|exact H]. eapply make_row_alive. exact H. }
       assert (Hrf : alive (nres_state (run_function P re self kf s2))).
       { destruct (run_function P re self kf s2) as [key0 s3|e s3|ab s3]; cbn [nres_state] in *; try exact Ha.
         eapply mm_alive. apply Hmm. exact Ha. }
@@ -241,8 +247,7 @@ Section ShiftReentry.
       rewrite (minmax_go_shift less kf rest 1 0 key0 s3 (Hmm _ _ Ha)).
       destruct (minmax_go F P re self less kf rest 1 0 key0 s3) as [i s4|r]; cbn [mmres_shift]; [|reflexivity].
       sh_cbn.
-      destruct (hget (st_heap s4) a) as [[t'| | | | |]|]; try reflexivity.
-      cbv zeta. destruct (tget _ t' _); [|reflexivity]. apply make_row_shift.
+      cbv zeta. destruct (tget _ entries _); [|reflexivity]. apply make_row_shift.
     Qed.
 
     Lemma sort_keys_shift kf : forall l s,
@@ -263,14 +268,17 @@ Section ShiftReentry.
       rewrite (IH s3 Ha3). destruct (sort_keys P re self kf rest s3); reflexivity.
     Qed.
 
-    Lemma native_sorted_shift it kf s :
-      alive (nres_state (native_sorted F P re self it kf s)) ->
-      native_sorted F P re' self' it kf (shift d s) = nres_shift d (native_sorted F P re self it kf s).
+    Lemma native_sorted_shift it kf s0 :
+      alive (nres_state (native_sorted F P re self it kf s0)) ->
+      native_sorted F P re' self' it kf (shift d s0) = nres_shift d (native_sorted F P re self it kf s0).
     Proof.
       unfold native_sorted. sh_cbn. intros Ha.
       destruct it as [|z|r|a]; try reflexivity.
-      destruct (hget (st_heap s) a) as [[t| | | | |]|]; try reflexivity.
-      destruct (titer (veq0 F (st_heap s)) t) as [l|]; [|reflexivity].
+      destruct (hget (st_heap s0) a) as [[t| | | | |]|]; try reflexivity.
+      rewrite snapshot_shift.
+      destruct (snapshot F s0 t) as [[s entries]|]; cbn [option_map fst snd]; [|reflexivity].
+      sh_cbn.
+      destruct (titer (veq0 F (st_heap s)) entries) as [l|]; [|reflexivity].
       assert (Hk : alive (sk_state (sort_keys P re self kf l s))).
       { destruct (sort_keys P re self kf l s) as [keyed s1|r]; cbn [sk_state]; [|exact Ha].
         destruct (stable_sort F (st_heap s1) keyed []); [|exact Ha].
